@@ -6,18 +6,18 @@
 (*   Reset{dir=1,ver,shift,names}  Build{res}  RefOpen{header as decoded by MpqFormat}              *)
 (*   RefFile{name, want, std, lib, labels, ...}*  RefAbsent{name,res}*  RefList{names,want}  Done   *)
 (* `std` is what the reference reader (TLC evaluating RefReadFile under Std, payloads inflated by   *)
-(* Python zlib/bz2) obtained; `lib` the same under the library-writer dialect.                     *)
+(* Python zlib/bz2) obtained; `devs` the same under every combination of the named deviations.     *)
 (*                                                                                                *)
 (* Direction 2 (reference writes, library reads).  Events of one archive:                          *)
-(*   Reset{dir=2,...,files}  Open{std,lib}  List{std,lib}  Read{name,std,lib}*  Absent{..}*  Done  *)
-(* `std` are the library's answers on the archive RefWrite laid out in the standard format, `lib`  *)
-(* its answers on the same files laid out in the library-reader dialect.                           *)
+(*   Reset{dir=2,...,files}  Open{std}  List{std}  Read{name,std,devs}*  Absent{name,std}*  Done   *)
+(* `std` are the library's answers on the archive RefWrite laid out in the standard format, `devs` *)
+(* its answers on variant archives with the file laid out under combinations of the deviations.    *)
 (*                                                                                                *)
 (* P-conjuncts (verdict): contents bit-identical (token and length) both ways, under every         *)
 (* spelling; absent names not found; header conforms and says what was configured; listing equals   *)
 (* the names put in; every file was compared.  A rejected event carries a reason:                  *)
-(*   "dev:<labels>"  the standard form fails but the named-deviation dialect explains it exactly    *)
-(*                   (a known, named interoperability defect)                                      *)
+(*   "dev:<labels>"  the standard form fails but the smallest combination <labels> of named          *)
+(*                   deviations explains it exactly (known, named interoperability defects)        *)
 (*   "unexplained"   anything else                                                                 *)
 EXTENDS MpqFormat, Json, IOUtils, TLC, TLCExt
 
@@ -27,8 +27,9 @@ VARIABLES tl,        \* position in the trace
           vphase,    \* "idle" | "reset" | "built" | "open" | "listed" | "closed" (behaviour ended early)
           vdir, vcfg,\* direction and configured [ver, shift]
           vwant,     \* name -> [len, tok]  (what was put into the archive)
+          vtwin,     \* [name, len, tok] of a same-name entry with locale 0x409 placed earlier in the probe chain ("" = none)
           vseen      \* names compared so far
-tvars == <<tl, vphase, vdir, vcfg, vwant, vseen>>
+tvars == <<tl, vphase, vdir, vcfg, vwant, vtwin, vseen>>
 
 Ev == Rec[tl]
 SeqSet(sq) == {sq[qi] : qi \in 1..Len(sq)}
@@ -44,14 +45,14 @@ T_Reset ==
   /\ vphase' = "reset" /\ vdir' = Ev.dir /\ vcfg' = [ver |-> Ev.ver, shift |-> Ev.shift]
   /\ vwant' = [nm \in SeqSet(Ev.names) |-> [len |-> Ev.lens[CHOOSE qi \in 1..Len(Ev.names) : Ev.names[qi] = nm],
                                            tok |-> Ev.toks[CHOOSE qi \in 1..Len(Ev.names) : Ev.names[qi] = nm]]]
-  /\ vseen' = {}
+  /\ vseen' = {} /\ vtwin' = Ev.twin
 
 \* a builder error ends the behaviour (that is C01's business); nothing was written
 T_Build ==
   /\ Ev.ev = "Build" /\ vphase = "reset" /\ vdir = 1
   /\ vphase' = IF Ev.res = "ok" THEN "built" ELSE "closed"
   /\ IF Ev.res = "ok" THEN TRUE ELSE PrintT(<<"DRIFT", tl, "builder refused: " \o Ev.res>>)
-  /\ UNCHANGED <<vdir, vcfg, vwant, vseen>>
+  /\ UNCHANGED <<vdir, vcfg, vwant, vtwin, vseen>>
 
 HeaderP(e) ==
   /\ e.open = "ok" /\ e.base = 0
@@ -62,36 +63,40 @@ T_RefOpen ==
   /\ Ev.ev = "RefOpen" /\ vphase = "built"
   /\ IF HeaderP(Ev) THEN vphase' = "open"
      ELSE Bad("unexplained") /\ vphase' = "closed"
-  /\ UNCHANGED <<vdir, vcfg, vwant, vseen>>
+  /\ UNCHANGED <<vdir, vcfg, vwant, vtwin, vseen>>
 
 \* one decoded variant gives the file back: every sector has its expected plain length, the
 \* concatenation has the token and length of what was added
+\* ... and the sector checksums, where present and readable, verify
 Gives(v, want) == /\ v.res = "ok" /\ v.len = want.len /\ v.tok = want.tok /\ v.plens = v.wants
+                  /\ v.crc \in {"none", "ok", "unverified"}
 RefFileP(e) ==
   /\ e.name \in DOMAIN vwant
   /\ Gives(e.std, vwant[e.name])
   /\ e.fsize = vwant[e.name].len
   /\ e.rawsame \in {"n/a", "same"}
-RefFileExplained(e) ==
-  /\ e.name \in DOMAIN vwant /\ e.labels # ""
-  /\ Gives(e.lib, vwant[e.name]) /\ e.librawsame \in {"n/a", "same"}
+  /\ e.locale = 0 /\ e.platform = 0             \* files were added with the neutral locale
+\* the smallest combination of named deviations under which the reference gets the file back exactly
+MinOf(st) == CHOOSE mi \in st : \A m2 \in st : mi <= m2
+RefFileExpl(e) == IF e.name \notin DOMAIN vwant THEN {}
+                  ELSE {di \in 1..Len(e.devs) : Gives(e.devs[di].v, vwant[e.name]) /\ e.devs[di].rawsame \in {"n/a", "same"}}
 T_RefFile ==
   /\ Ev.ev = "RefFile" /\ vphase = "open" /\ vdir = 1
   /\ IF RefFileP(Ev) THEN TRUE
-     ELSE IF RefFileExplained(Ev) THEN Bad("dev:" \o Ev.labels) ELSE Bad("unexplained")
+     ELSE IF RefFileExpl(Ev) # {} THEN Bad("dev:" \o Ev.devs[MinOf(RefFileExpl(Ev))].labels) ELSE Bad("unexplained")
   /\ vseen' = vseen \cup {Ev.name}
-  /\ UNCHANGED <<vphase, vdir, vcfg, vwant>>
+  /\ UNCHANGED <<vphase, vdir, vcfg, vwant, vtwin>>
 
 T_RefAbsent ==
   /\ Ev.ev = "RefAbsent" /\ vphase = "open" /\ vdir = 1
   /\ IF Ev.name \notin DOMAIN vwant /\ Ev.res = "notfound" THEN TRUE ELSE Bad("unexplained")
-  /\ UNCHANGED <<vphase, vdir, vcfg, vwant, vseen>>
+  /\ UNCHANGED <<vphase, vdir, vcfg, vwant, vtwin, vseen>>
 
 \* the (listfile) decoded by the reference names exactly the files put in (plus itself)
 T_RefList ==
   /\ Ev.ev = "RefList" /\ vphase = "open" /\ vdir = 1
   /\ IF Ev.res = "ok" /\ SeqSet(Ev.names) = DOMAIN vwant \cup {ListfileName} THEN TRUE ELSE Bad("unexplained")
-  /\ UNCHANGED <<vphase, vdir, vcfg, vwant, vseen>>
+  /\ UNCHANGED <<vphase, vdir, vcfg, vwant, vtwin, vseen>>
 
 \* ---------------------------------------------------------------------------------------------
 \* direction 2
@@ -99,36 +104,44 @@ T_RefList ==
 T_Open ==
   /\ Ev.ev = "Open" /\ vphase = "reset" /\ vdir = 2
   /\ IF Ev.std = "ok" THEN vphase' = "open"
-     ELSE Bad(IF Ev.lib = "ok" THEN "dev:archive" ELSE "unexplained") /\ vphase' = "closed"
-  /\ UNCHANGED <<vdir, vcfg, vwant, vseen>>
+     ELSE Bad("unexplained") /\ vphase' = "closed"
+  /\ UNCHANGED <<vdir, vcfg, vwant, vtwin, vseen>>
 
 AllSpellings(v, want) ==
   \A qi \in 1..Len(v.res) : v.res[qi] = "ok" /\ v.len[qi] = want.len /\ v.tok[qi] = want.tok
+ReadExpl(e) == IF e.name \notin DOMAIN vwant THEN {}
+               ELSE {di \in 1..Len(e.devs) : Len(e.devs[di].r.res) = 4 /\ AllSpellings(e.devs[di].r, vwant[e.name])}
 T_Read ==
   /\ Ev.ev = "Read" /\ vphase \in {"open", "listed"} /\ vdir = 2
   /\ IF Ev.name \in DOMAIN vwant /\ Len(Ev.std.res) = 4 /\ AllSpellings(Ev.std, vwant[Ev.name]) THEN TRUE
-     ELSE IF Ev.name \in DOMAIN vwant /\ Ev.labels # "" /\ Len(Ev.lib.res) = 4 /\ AllSpellings(Ev.lib, vwant[Ev.name])
-          THEN Bad("dev:" \o Ev.labels) ELSE Bad("unexplained")
+     ELSE IF ReadExpl(Ev) # {} THEN Bad("dev:" \o Ev.devs[MinOf(ReadExpl(Ev))].labels)
+     \* named deviation `localefirst`: the first same-name entry of the probe chain is returned whatever its locale
+     ELSE IF Ev.name = vtwin.name /\ Len(Ev.std.res) = 4 /\ AllSpellings(Ev.std, vtwin) THEN Bad("dev:localefirst")
+     ELSE Bad("unexplained")
   /\ vseen' = vseen \cup {Ev.name}
-  /\ UNCHANGED <<vphase, vdir, vcfg, vwant>>
+  /\ UNCHANGED <<vphase, vdir, vcfg, vwant, vtwin>>
 
 T_Absent ==
   /\ Ev.ev = "Absent" /\ vphase \in {"open", "listed"} /\ vdir = 2
   /\ IF Ev.name \notin DOMAIN vwant /\ \A qi \in 1..Len(Ev.std.res) : Ev.std.res[qi] = "notfound" THEN TRUE
      ELSE Bad("unexplained")
-  /\ UNCHANGED <<vphase, vdir, vcfg, vwant, vseen>>
+  /\ UNCHANGED <<vphase, vdir, vcfg, vwant, vtwin, vseen>>
 
 \* listing through the reference-written (listfile): the names put in, with their sizes
 ListP(v) ==
   /\ v.res = "ok"
   /\ SeqSet(v.names) = DOMAIN vwant
   /\ \A qi \in 1..Len(v.names) : v.names[qi] \in DOMAIN vwant => v.sizes[qi] = vwant[v.names[qi]].len
+ListPT(v) ==        \* ... with the size of the localized twin reported for its name
+  /\ v.res = "ok" /\ SeqSet(v.names) = DOMAIN vwant
+  /\ \A qi \in 1..Len(v.names) : v.names[qi] \in DOMAIN vwant =>
+        v.sizes[qi] = (IF v.names[qi] = vtwin.name THEN vtwin.len ELSE vwant[v.names[qi]].len)
 T_List ==
   /\ Ev.ev = "List" /\ vphase = "open" /\ vdir = 2
   /\ IF ListP(Ev.std) THEN TRUE
-     ELSE IF Ev.listlabels # "" /\ ListP(Ev.lib) THEN Bad("dev:" \o Ev.listlabels) ELSE Bad("unexplained")
+     ELSE IF vtwin.name # "" /\ ListPT(Ev.std) THEN Bad("dev:localefirst") ELSE Bad("unexplained")
   /\ vphase' = "listed"
-  /\ UNCHANGED <<vdir, vcfg, vwant, vseen>>
+  /\ UNCHANGED <<vdir, vcfg, vwant, vtwin, vseen>>
 
 \* ---------------------------------------------------------------------------------------------
 \* every file of the archive was compared (no silent skipping); in a closed behaviour nothing is due
@@ -137,14 +150,15 @@ T_Done ==
   /\ IF vphase = "closed" \/ vseen = DOMAIN vwant THEN TRUE
      ELSE Bad("unexplained")
   /\ vphase' = "idle"
-  /\ UNCHANGED <<vdir, vcfg, vwant, vseen>>
+  /\ UNCHANGED <<vdir, vcfg, vwant, vtwin, vseen>>
 
 \* events after an early end of the behaviour are consumed without meaning
 T_Skip ==
   /\ vphase = "closed" /\ Ev.ev \notin {"Reset", "Done"}
-  /\ UNCHANGED <<vphase, vdir, vcfg, vwant, vseen>>
+  /\ UNCHANGED <<vphase, vdir, vcfg, vwant, vtwin, vseen>>
 
 Init == tl = 1 /\ vphase = "idle" /\ vdir = 0 /\ vcfg = [ver |-> -1, shift |-> -1] /\ vwant = <<>> /\ vseen = {}
+        /\ vtwin = [name |-> "", len |-> -1, tok |-> ""]
 Next == /\ tl <= Len(Rec)
         /\ tl' = tl + 1
         /\ \/ T_Reset \/ T_Build \/ T_RefOpen \/ T_RefFile \/ T_RefAbsent \/ T_RefList
